@@ -334,9 +334,18 @@ impl TurnClient {
                 socket.send_to(data, *server).await?;
             }
             TurnTransport::Tcp { write, .. } => {
-                let mut frame = Vec::with_capacity(2 + data.len());
-                frame.extend_from_slice(&(data.len() as u16).to_be_bytes());
+                // RFC 5766 s2.1 / RFC 5389 s7.2.2: on a TURN TCP connection STUN messages
+                // delimit themselves by their length field and nothing else frames them;
+                // RFC 5766 s11.5: ChannelData is padded to a multiple of four bytes.
+                let is_channel_data = data.first().is_some_and(|b| b & 0xC0 == 0x40);
+                let pad = if is_channel_data {
+                    (4 - data.len() % 4) % 4
+                } else {
+                    0
+                };
+                let mut frame = Vec::with_capacity(data.len() + pad);
                 frame.extend_from_slice(data);
+                frame.resize(data.len() + pad, 0);
                 write.lock().await.write_all(&frame).await?;
             }
         }
@@ -363,18 +372,22 @@ impl TurnClient {
                 Ok(len)
             }
             TurnTransport::Tcp { read, .. } => {
-                let mut header = [0u8; 2];
+                // Both message kinds carry their length at bytes 2..4: a STUN message is
+                // 20 + length bytes, ChannelData is 4 + length bytes padded to four.
+                let mut header = [0u8; 4];
                 let mut stream = read.lock().await;
                 stream.read_exact(&mut header).await?;
-                let len = u16::from_be_bytes(header) as usize;
-                let mut offset = 0;
-                while offset < len {
-                    let read = stream.read(&mut buf[offset..len]).await?;
-                    if read == 0 {
-                        bail!("TURN TCP stream closed");
-                    }
-                    offset += read;
+                let field = u16::from_be_bytes([header[2], header[3]]) as usize;
+                let len = if header[0] & 0xC0 == 0 {
+                    20 + field
+                } else {
+                    4 + field.div_ceil(4) * 4
+                };
+                if len > buf.len() {
+                    bail!("TURN TCP message of {} bytes exceeds the receive buffer", len);
                 }
+                buf[..4].copy_from_slice(&header);
+                stream.read_exact(&mut buf[4..len]).await?;
                 Ok(len)
             }
         }
